@@ -1,12 +1,12 @@
 //! The operation battery shared by the toy (exhaustive) and shipped (generated) relations.
 use ark_ec::models::short_weierstrass::{Affine as SwAffine, Projective as SwProj, SWCurveConfig};
 use ark_ec::models::twisted_edwards::{Affine as TeAffine, Projective as TeProj, TECurveConfig};
-use ark_ec::{AffineRepr, CurveGroup};
+use ark_ec::{AffineRepr, CurveGroup, PrimeGroup, ScalarMul};
 use ark_ff::{AdditiveGroup, Field, One, Zero};
 use std::fmt::Debug;
 use std::marker::PhantomData;
 use vh_core::curve::*;
-use vh_core::engine::{Fail, Obs, R};
+use vh_core::engine::{no_panic, Fail, Obs, R};
 use vh_core::{ensure, ensure_eq};
 
 /// Bridge between a curve model and its oracle.
@@ -27,6 +27,17 @@ pub trait Model: 'static {
     fn of_aff(a: &Self::Aff) -> Self::O;
     /// does the raw projective value denote `want` (cross-multiplied, plus representation invariants)?
     fn is(g: &Self::Proj, want: &Self::O) -> bool;
+    /// affine coordinates as `AffineRepr::xy` documents them (None for the SW point at infinity)
+    fn coords(p: &Self::O) -> Option<(Self::F, Self::F)>;
+    /// an arbitrary coordinate pair as an unchecked affine value and as an oracle point
+    fn raw(x: Self::F, y: Self::F) -> (Self::Aff, Self::O);
+    /// every public spelling of the affine identity
+    fn aff_identities() -> Vec<(&'static str, Self::Aff)>;
+    /// the declared generator as an oracle point
+    fn gen() -> Self::O;
+    /// the checked constructors (`Affine::new`, `Projective::new`) applied to the raw coordinates of `g`
+    /// (`Affine::new` only for a finite point given as (x, y))
+    fn checked_new(g: &Self::Proj, xy: Option<(Self::F, Self::F)>) -> (Self::Proj, Option<Self::Aff>);
 }
 
 pub struct SwM<P>(PhantomData<P>);
@@ -68,6 +79,28 @@ impl<P: SWCurveConfig> Model for SwM<P> {
             },
         }
     }
+    fn coords(p: &Self::O) -> Option<(Self::F, Self::F)> {
+        match p {
+            Sw::Inf => None,
+            Sw::Aff(x, y) => Some((*x, *y)),
+        }
+    }
+    fn raw(x: Self::F, y: Self::F) -> (Self::Aff, Self::O) {
+        (SwAffine::<P>::new_unchecked(x, y), Sw::Aff(x, y))
+    }
+    fn aff_identities() -> Vec<(&'static str, Self::Aff)> {
+        vec![
+            ("Affine::identity()", SwAffine::<P>::identity()),
+            ("AffineRepr::zero()", <SwAffine<P> as AffineRepr>::zero()),
+            ("Affine::default()", SwAffine::<P>::default()),
+        ]
+    }
+    fn gen() -> Self::O {
+        sw_from_affine::<P>(&P::GENERATOR)
+    }
+    fn checked_new(g: &Self::Proj, xy: Option<(Self::F, Self::F)>) -> (Self::Proj, Option<Self::Aff>) {
+        (SwProj::<P>::new(g.x, g.y, g.z), xy.map(|(x, y)| SwAffine::<P>::new(x, y)))
+    }
 }
 
 impl<P: TECurveConfig> Model for TeM<P> {
@@ -103,6 +136,26 @@ impl<P: TECurveConfig> Model for TeM<P> {
     fn is(g: &Self::Proj, want: &Self::O) -> bool {
         !g.z.is_zero() && g.x == want.0 * g.z && g.y == want.1 * g.z && g.t * g.z == g.x * g.y
     }
+    fn coords(p: &Self::O) -> Option<(Self::F, Self::F)> {
+        // `AffineRepr::xy` is None exactly for the identity (the trait's `is_zero` is defined as `xy().is_none()`)
+        (*p != te_identity()).then_some((p.0, p.1))
+    }
+    fn raw(x: Self::F, y: Self::F) -> (Self::Aff, Self::O) {
+        (TeAffine::<P>::new_unchecked(x, y), Te(x, y))
+    }
+    fn aff_identities() -> Vec<(&'static str, Self::Aff)> {
+        vec![
+            ("Affine::zero()", TeAffine::<P>::zero()),
+            ("AffineRepr::zero()", <TeAffine<P> as AffineRepr>::zero()),
+            ("Affine::default()", TeAffine::<P>::default()),
+        ]
+    }
+    fn gen() -> Self::O {
+        te_from_affine::<P>(&P::GENERATOR)
+    }
+    fn checked_new(g: &Self::Proj, xy: Option<(Self::F, Self::F)>) -> (Self::Proj, Option<Self::Aff>) {
+        (TeProj::<P>::new(g.x, g.y, g.t, g.z), xy.map(|(x, y)| TeAffine::<P>::new(x, y)))
+    }
 }
 
 pub struct Case<M: Model> {
@@ -116,6 +169,9 @@ pub struct Case<M: Model> {
     pub jq: (M::F, M::F),
     /// selector word for list shapes
     pub sel: u64,
+    /// P is known (by construction / by the oracle) to lie in the prime-order subgroup and the caller wants the
+    /// checked constructors `Affine::new` / `Projective::new` (which multiply by r) to be exercised on it
+    pub try_new: bool,
 }
 
 /// classification + non-trivial rule shared by all relations
@@ -333,6 +389,99 @@ macro_rules! battery {
                 ensure_eq!(pp.is_zero(), p == id, "is_zero.proj", "Pp={:?}", pp);
                 ensure_eq!(r.is_zero(), sum == id, "is_zero.result", "r={:?}", r);
                 ensure_eq!(pa.is_zero(), p == id, "is_zero.affine", "Pa={:?}", pa);
+            }
+            // ---- coordinate accessors of the affine form
+            {
+                let want = <M<P>>::coords(&p);
+                ensure_eq!(pa.xy(), want, "xy", "Pa={:?}", pa);
+                ensure_eq!(pa.x(), want.map(|c| c.0), "x", "Pa={:?}", pa);
+                ensure_eq!(pa.y(), want.map(|c| c.1), "y", "Pa={:?}", pa);
+                let ra: $aff<P> = r.into_affine();
+                ensure_eq!(ra.xy(), <M<P>>::coords(&sum), "xy.result", "P+Q={:?}", ra);
+            }
+            // ---- `is_on_curve` agrees with the curve equation as the oracle evaluates it: operands, results, and
+            //      arbitrary coordinate pairs (mostly off the curve; on toy fields a fair share is on it)
+            {
+                ensure!(pa.is_on_curve() && qa.is_on_curve(), "is_on_curve.operand", "is_on_curve() is false for an operand: {:?} {:?}", pa, qa);
+                let ra: $aff<P> = r.into_affine();
+                let da: $aff<P> = d.into_affine();
+                ensure!(ra.is_on_curve() && da.is_on_curve(), "is_on_curve.result", "is_on_curve() is false for a result: P+Q={:?} 2P={:?}", ra, da);
+                let mut probes = vec![(c.jp.0, c.jp.1), (c.jq.1, c.jq.0), (c.nu, c.mu)];
+                if let (Some((px, py)), Some((qx, qy))) = (<M<P>>::coords(&p), <M<P>>::coords(&q)) {
+                    probes.push((px, qy));
+                    probes.push((qx, py));
+                    probes.push((px, py + c.lam));
+                    probes.push((py, px));
+                }
+                for (x, y) in probes {
+                    let (a, w) = <M<P>>::raw(x, y);
+                    let expect = <M<P>>::on_curve(&w);
+                    o.class_if(expect, "is_on_curve probe on the curve");
+                    o.class_if(!expect, "is_on_curve probe off the curve");
+                    ensure_eq!(a.is_on_curve(), expect, "is_on_curve.probe", "({:?}, {:?})", x, y);
+                }
+            }
+            // ---- every spelling of the identity is the identity, as a value and as an operand
+            {
+                let zs: [(&str, $proj<P>); 3] = [
+                    ("Projective::ZERO", <$proj<P> as AdditiveGroup>::ZERO),
+                    ("Projective::zero()", $proj::<P>::zero()),
+                    ("Projective::default()", $proj::<P>::default()),
+                ];
+                // one spelling per case (the selector word rotates through them)
+                for (nm, z) in zs.iter().skip(((c.sel >> 36) % 3) as usize).take(1) {
+                    ensure!(z.is_zero(), "identity.is_zero", "{} is not is_zero(): {:?}", nm, z);
+                    let _ = chk::<M<P>>(*z, &id, "identity.value", c)?;
+                    let _ = chk::<M<P>>(pp + z, &p, "identity.add_right", c)?;
+                    let _ = chk::<M<P>>(*z + qp, &q, "identity.add_left", c)?;
+                    let _ = chk::<M<P>>(*z + qa, &q, "identity.add_left_affine", c)?;
+                    let _ = chk::<M<P>>(*z - qp, &nq, "identity.sub_left", c)?;
+                    let _ = chk::<M<P>>(*z - qa, &nq, "identity.sub_left_affine", c)?;
+                    let _ = chk::<M<P>>(pp - z, &p, "identity.sub_right", c)?;
+                    let _ = chk::<M<P>>(z.double(), &id, "identity.double", c)?;
+                    ensure!(*z == $proj::<P>::zero() && (*z == pp) == (p == id), "identity.eq", "{} compares wrongly with P={:?}", nm, pp);
+                    chk_aff::<M<P>>(z.into_affine(), &id, "identity.into_affine", c)?;
+                }
+                for (nm, za) in <M<P>>::aff_identities().into_iter().skip(((c.sel >> 38) % 3) as usize).take(1) {
+                    ensure!(za.is_zero() && <M<P>>::of_aff(&za) == id, "identity.affine", "{} is not the identity: {:?}", nm, za);
+                    let _ = chk::<M<P>>(za.into_group(), &id, "identity.affine.into_group", c)?;
+                    let _ = chk::<M<P>>(pp + za, &p, "identity.affine.add_right", c)?;
+                    let _ = chk::<M<P>>(pp - za, &p, "identity.affine.sub_right", c)?;
+                    let _ = chk::<M<P>>(za + qp, &q, "identity.affine.add_left", c)?;
+                    let _ = chk::<M<P>>(za + qa, &q, "identity.affine.add_left_affine", c)?;
+                    let _ = chk::<M<P>>(za - qa, &nq, "identity.affine.sub_left_affine", c)?;
+                    ensure!((za == pa) == (p == id) && (pp == za) == (p == id), "identity.affine.eq", "{} compares wrongly with P={:?}", nm, pa);
+                }
+                o.evals(17);
+            }
+            // ---- the declared generator through both accessors
+            {
+                let g = <M<P>>::gen();
+                ensure!(<M<P>>::on_curve(&g) && g != id, "generator.on_curve", "the declared generator is not a finite point of the curve: {:?}", g);
+                let _ = chk::<M<P>>(<$proj<P> as PrimeGroup>::generator(), &g, "generator.projective", c)?;
+                chk_aff::<M<P>>(<$aff<P> as AffineRepr>::generator(), &g, "generator.affine", c)?;
+            }
+            // ---- batched conversion under its `ScalarMul` name (what fixed-base tables and MSM callers use)
+            {
+                let cand: [($proj<P>, <M<P> as Model>::O); 6] = [(qp, q), (pp, p), (<M<P>>::lift(&id, &c.mu, &c.jq), id), (r, sum), (qa.into_group(), q), (d, dbl)];
+                let n = ((c.sel >> 28) % 7) as usize;
+                let start = ((c.sel >> 32) % 6) as usize;
+                let v: Vec<$proj<P>> = (0..n).map(|i| cand[(start + i) % 6].0).collect();
+                let out = <$proj<P> as ScalarMul>::batch_convert_to_mul_base(&v);
+                ensure_eq!(out.len(), n, "batch_convert_to_mul_base.len");
+                for i in 0..n {
+                    let w = cand[(start + i) % 6].1;
+                    ensure!(<M<P>>::of_aff(&out[i]) == w, "batch_convert_to_mul_base", "entry {} of {} is {:?}, expected {:?} (input {:?})", i, n, out[i], w, v[i]);
+                }
+            }
+            // ---- checked constructors accept (and return) members of the prime-order subgroup
+            if c.try_new {
+                o.class("checked constructors on a subgroup member");
+                let (np_, na_) = no_panic("new", || <M<P>>::checked_new(&pp, <M<P>>::coords(&p)))?;
+                let _ = chk::<M<P>>(np_, &p, "new.projective", c)?;
+                if let Some(a) = na_ {
+                    chk_aff::<M<P>>(a, &p, "new.affine", c)?;
+                }
             }
             Ok(())
         }
